@@ -309,7 +309,8 @@ func arrayTexts(d Decl, its []string) []string {
 	}
 	out = append(out, " "+good+sep+good+" ", " "+sep+good+" ", sep, good+sep+good+sep+good, good+sep+sep+good, good+sep+" "+good)
 	if !closed {
-		out = append(out, good+";"+good)
+		// a foreign separator; Unicode white space (NBSP, EM SPACE) around items is trimmed, U+200B and ill-formed bytes are not
+		out = append(out, good+";"+good, "\xc2\xa0"+good+sep+good+"\xe2\x80\x83", "\xe2\x80\x8b"+good+sep+"\xa0"+good)
 	}
 	return dedup(out)
 }
